@@ -93,6 +93,14 @@ def make_grammar(r, shell):
         if 'other' in st:
             for o in r.sample(others, r.randint(1, 2)):
                 stmts.append(defn(nm, o, cmd('echo o%d' % i)))
+    for sp in special:
+        # the predefined names may be (re)defined by the grammar like any other name
+        if sp != '_' and r.random() < 0.35:
+            stmts.append(defn(sp, None, alt(lit('pd1'), lit('pd2'))))
+        elif sp != '_' and r.random() < 0.2:
+            stmts.append(defn(sp, shell, cmd('echo special')))
+    if not special and r.random() < 0.1:
+        stmts.append(defn('DIRECTORY', None, lit('unused-dir-def')))
     ncalls = r.randint(1, 2)
     calls = []
     for c in range(ncalls):
